@@ -32,6 +32,10 @@ type Op struct {
 	//   rot     (re-open follow) remove the drained file and re-create it with N
 	//           bytes; How = noticed | immediate | busy | at:<hook point>
 	//   rm      (plain follow, last op) remove the drained file; the stream must end
+	//   sib     something happens to ANOTHER file of the same directory whose name resembles the followed one
+	//           (N picks the name: old-<base>, <base>.1, x<base>, <base minus its first letter>, <base>~, <base without
+	//           extension>); How = touch (create / append) | rm (create, then remove) | mv (create, rename to another
+	//           sibling name). The followed file stays in place, so nothing about the expected stream changes.
 	K   string `json:"k"`
 	N   int    `json:"n,omitempty"`
 	W   int    `json:"w,omitempty"`
@@ -196,18 +200,19 @@ type mon struct {
 	envErr    string
 
 	// schedule control
-	busyAt   int64  // consumer becomes busy when delivered >= busyAt (-1: off)
-	gateLoc  string // hook point at which the reader is to be held ("" off)
-	held     string // "" | "consumer" | hook point
-	armSeq   int64  // incremented by every armBusy/armGate: identifies one hold episode
-	heldSeq  int64  // the armSeq under which the current hold was taken
-	stop     bool
-	hits     map[string]int64
-	heldCnt  map[string]int64
-	sig      uint64 // order-sensitive hash of the observed event sequence
-	events   int64
-	tailLog  []string // last few events, for messages
-	panicked string
+	busyAt     int64  // consumer becomes busy when delivered >= busyAt (-1: off)
+	gateLoc    string // hook point at which the reader is to be held ("" off)
+	held       string // "" | "consumer" | hook point
+	armSeq     int64  // incremented by every armBusy/armGate: identifies one hold episode
+	heldSeq    int64  // the armSeq under which the current hold was taken
+	stop       bool
+	hits       map[string]int64
+	heldCnt    map[string]int64
+	sig        uint64 // order-sensitive hash of the observed event sequence
+	events     int64
+	tailLog    []string // last few events, for messages
+	panicked   string
+	siblingOps int64 // events caused on other files of the directory
 }
 
 func newMon(reopen bool) *mon {
